@@ -149,6 +149,8 @@ def _worker(job):
         for k, v in job.opts.items():
             if k.startswith('ex.'):
                 setattr(ex, k[3:], v)
+        if job.opts.get('float_contract'):
+            ses.use_float_contract()
         cellsout = []
         tmo = job.timeout or _DEFAULT_TIMEOUT
         deadline = time.time() + tmo if tmo else None
